@@ -18,7 +18,7 @@ _KNOWN_TOKENS = set(re.findall(r"\bS_\w+\b", open(os.path.join(_HERE, "c16.h")).
 class StrLit(Rule):
     """every string literal -> the opaque token that is named after its spelling: "pika.os_threads" -> S_pika_d_os_threads,
     "pika:pu-step" -> S_pika_c_pu_m_step, "" -> S_empty ('.' -> _d_, ':' -> _c_, '-' -> _m_).  A literal the header has no
-    name for becomes VX_UNKNOWN_STR(<crc>): a token different from every named one, so an edited key/keyword in /repo shows up
+    name for becomes the number 1000000 + crc: a token different from every named one, so an edited key/keyword in /repo shows up
     as a failed obligation and not as a compile error."""
 
     def __init__(self, n=None):
@@ -28,10 +28,12 @@ class StrLit(Rule):
     def name(lit):
         if lit == "":
             return "S_empty"
+        if lit == ";":
+            return "S_semicolon"
         s = lit.replace(".", "_d_").replace(":", "_c_").replace("-", "_m_")
         if re.fullmatch(r"\w+", s) and ("S_" + s) in _KNOWN_TOKENS:
             return "S_" + s
-        return "VX_UNKNOWN_STR(%d)" % (zlib.crc32(lit.encode()) % 100000)
+        return "%d" % (1000000 + zlib.crc32(lit.encode()) % 100000)    # a bare number: survives every later spelling rule
 
     def apply(self, text):
         k = [0]
@@ -82,6 +84,7 @@ SPELLING = [
     Call(r"\bstd::to_string", "to_string_size_t({args})", None),
     Sub(r"\(std::(max|min)\)", r"std_\1_size_t", None),
     Sub(r"\b(\w+)\.empty\(\)", r"str_is_empty(\1)", None),
+    Sub(r"\bstd::string\s+(\w+)\(([^()]*)\);", r"str_t \1 = \2;", None),       # direct initialisation
     Sub(r"\bstd::string\b", "str_t", None),
     Sub(r"\bdetail::(?=handle_|get_number)", "", None),
 ]
@@ -155,7 +158,8 @@ GV_RULES = [
     Sub(r"\bmap_type::const_iterator\b", "map_iter", None),
     Call(r"\bconfig_\.(find|end)", lambda args, env: "map_%s(&self->config_%s)" % (env["h1"], "".join(", " + a for a in args)), "+"),
     Sub(r"\(\*(\w+)\)\.second\b", r"\1->val", None),
-    Sub(r"\b(?:pika::)?detail::from_string<\s*(?:T|DestType)\s*>", "from_string_dflt_T", "+"),
+    Sub(r"\b(?:pika::)?detail::from_string<\s*(?:T|DestType)\s*>", "from_string_dflt_T", None),
+    Sub(r"\b(T|DestType)\(\)", r"((\1) 0)", None),      # value-initialisation
 ]
 UNITS += [
     Unit("cfgmap.get_value." + t, "getvalue.c", defines=["U_GET_VALUE"] + d, enforce="manage_config_get_value",
@@ -255,32 +259,32 @@ class MayThrow(Rule):
 
 def member_call(name):
     """`name();` (member function of the same object) -> `name(self);` + leave if it threw"""
-    return Sub(r"(?<![\w.>:])%s\(\);" % name, "{ %s(self); if (vx_exc) return VX_RET; }" % name, 1)
+    return Sub(r"(?<![\w.>:])%s\(\);" % name, "{ %s(self); if (vx_exc) return VX_RET; }" % name, None)
 
 
 ARG_MEMBERS = ["use_process_mask_", "process_mask_", "scheduler_", "affinity_domain_", "affinity_bind_", "pu_step_", "pu_offset_",
                "numa_sensitive_", "num_threads_", "num_cores_"]
 ARG_RULES = [
     DropStmt(r"\bPIKA_LOG", None),
-    DropBlock(r"\bif\s*\(\s*debug_clp\s*\)", 1),
+    DropBlock(r"\bif\s*\(\s*debug_clp\s*\)", None),
     THROW,
-    IniEmplace("+"),
+    IniEmplace(None),
     StrLit(None),
     # --pika:ini plumbing
     Sub(r"\bstd::vector<std::string>\s+(\w+)\s*=\s*vm\[([^\]]+)\]\.as<\s*std::vector<std::string>\s*>\(\);",
-        r"struct strvec \1 = vm_as_vector_string(vm, \2);", 1),
-    Sub(r"\bstd::copy\((\w+)\.begin\(\),\s*\1\.end\(\),\s*std::back_inserter\((\w+)\)\);", r"vec_append_all(\2, &\1);", 1),
-    Sub(r"\bcfgmap\.add\((\w+)\);", r"cfg_add(cfgmap, &\1);", 1),
+        r"struct strvec \1 = vm_as_vector_string(vm, \2);", None),
+    Sub(r"\bstd::copy\((\w+)\.begin\(\),\s*\1\.end\(\),\s*std::back_inserter\((\w+)\)\);", r"vec_append_all(\2, &\1);", None),
+    Sub(r"\bcfgmap\.add\((\w+)\);", r"cfg_add(cfgmap, &\1);", None),
     # process mask installation
-    Sub(r"(?<![\w:])from_string<\s*(?:\w+::)*(\w+)\s*>\(", r"from_string_\1(", 1),
-    MayThrow(r"\bfrom_string_mask_type\(", 1),
-    Sub(r"\bthreads::detail::get_topology\(\)\.(\w+)\(", r"topo_\1(get_topology(), ", 1),
+    Sub(r"(?<![\w:])from_string<\s*(?:\w+::)*(\w+)\s*>\(", r"from_string_\1(", None),
+    MayThrow(r"\bfrom_string_mask_type\(", None),
+    Sub(r"\bthreads::detail::get_topology\(\)\.(\w+)\(", r"topo_\1(get_topology(), ", None),
     # callees: resolution functions (may throw), checks (member functions, may throw)
-    MayThrow(r"\bdetail::handle_\w+\(|(?<![\w:])handle_process_mask\(", 9),
+    MayThrow(r"\bdetail::handle_\w+\(|(?<![\w:])handle_process_mask\(", None),
     Sub(r"\bdetail::(?=handle_)", "", None),
     member_call("check_affinity_domain"), member_call("check_pu_step"), member_call("check_pu_offset"),
     member_call("check_affinity_description"),
-    Sub(r"\bupdate_logging_settings\(", "update_logging_settings(self, ", 1),
+    Sub(r"\bupdate_logging_settings\(", "update_logging_settings(self, ", None),
     # the three sources
     Call(r"\brtcfg_\.get_entry", "rtcfg_get_entry(&self->rtcfg_, {args})", None),
     Call(r"\b(?:pika::)?(?:detail::)?get_entry_as<\s*(?:std::)?(\w+)\s*>", "get_entry_as_{h1}({args})", None),
@@ -292,7 +296,7 @@ ARG_RULES = [
 from vx.lift import Auto
 UNITS += [
     Unit("handle_arguments", "arguments.c", enforce="handle_arguments",
-         lifts={"body": Lift(CLH, r"void command_line_handling::handle_arguments\(", rules=ARG_RULES, post=[Auto(1)])},
+         lifts={"body": Lift(CLH, r"void command_line_handling::handle_arguments\(", rules=ARG_RULES, post=[Auto(None)])},
          funcs=[CLH + ": pika::detail::command_line_handling::handle_arguments"], min_obligations=60,
          doc="T: every setting is resolved exactly once (resolution functions as counting stubs) with the runtime-configuration "
              "entry or the built-in literal as default; the resolved value is stored in its member and written exactly once "
@@ -302,9 +306,168 @@ UNITS += [
              "without priority queues throws"),
 ]
 
+
+# ---- validity checks on the resolved values ---------------------------------------------------------------------------------------
+CHK_RULES = [
+    Sub(r"\bstd::size_t\((-?\w+)\)", r"((size_t) (\1))", None),
+    Sub(r"\b(?:pika::)?threads::detail::hardware_concurrency\b", "hardware_concurrency", None),
+] + SPELLING[:3] + [
+    Sub(r"\bstd::string\(([^()]+)\)\.find\(([^()]+)\)", r"str_find(\1, \2)", None),
+] + SPELLING[3:] + [Members(["pu_step_", "pu_offset_", "affinity_domain_", "affinity_bind_"],
+                            optional=["pu_step_", "pu_offset_", "affinity_domain_", "affinity_bind_"])]
+
+
+def check_unit(name, define, func, doc):
+    return Unit("check." + name, "checks.c", defines=[define], enforce=func,
+                lifts={"body": Lift(CLH, r"void command_line_handling::%s\(\) const" % func, rules=CHK_RULES)},
+                funcs=[CLH + ": pika::detail::command_line_handling::" + func], min_obligations=3, doc=doc)
+
+
+UNITS += [
+    check_unit("pu_offset", "U_CHECK_PU_OFFSET", "check_pu_offset",
+               "F: throws exactly if an offset was given and is not smaller than the number of processing units"),
+    check_unit("pu_step", "U_CHECK_PU_STEP", "check_pu_step",
+               "F: on a machine with more than one PU a step of 0 or >= #PUs throws; a valid step never throws"),
+    check_unit("affinity_description", "U_CHECK_AFFINITY_DESCRIPTION", "check_affinity_description",
+               "F: throws exactly if a binding description is combined with a pu-step != 1, a pu-offset != 0 or an affinity domain != pu"),
+    check_unit("affinity_domain", "U_CHECK_AFFINITY_DOMAIN", "check_affinity_domain",
+               "F: throws exactly if the domain is not a leading abbreviation of pu, core, socket or machine ('is a prefix of' is "
+               "an opaque predicate on tokens)"),
+]
+
+
+# ---- handle_affinity_bind ------------------------------------------------------------------------------------------------------
+class RangeForStr(Rule):
+    """`for (std::string const& s : v) {` -> `for (size_t vx_itK = 0; vx_itK != strvec_size(&v); ++vx_itK) { str_t s = strvec_at(&v, vx_itK);`"""
+
+    def __init__(self, n=None):
+        self.n = n
+
+    def apply(self, text):
+        k = [0]
+
+        def rep(m):
+            k[0] += 1
+            it = "vx_it%d" % k[0]
+            return "for (size_t %s = 0; %s != strvec_size(&%s); ++%s) { str_t %s = strvec_at(&%s, %s);" % (
+                it, it, m.group(2), it, m.group(1), m.group(2), it)
+
+        text = re.sub(r"\bfor\s*\(\s*(?:const\s+)?std::string(?:\s+const)?\s*&\s*(\w+)\s*:\s*(\w+)\s*\)\s*\{", rep, text)
+        self.check(k[0], "RangeForStr")
+        return text
+
+
+LOOP_BIND = """
+__CPROVER_assigns(vx_it1, affinity_desc, BIND_FRAME)
+__CPROVER_loop_invariant(vx_it1 <= g_vec_n && g_elems == vx_it1 && g_b_ok && g_sep_ok && !g_cur_fetched && !g_last_was_sep && affinity_desc == BUILT)
+__CPROVER_loop_invariant(g_v < vx_it1 ? (g_v_appended == 1 && g_v_pos == g_v) : g_v_appended == 0)
+__CPROVER_loop_invariant(vx_it1 == 0 ==> (g_seps == 0 && !g_b_nonempty))
+"""
+BIND_RULES = [
+    RangeForStr(None),
+    Sub(r"\bstd::vector<std::string>\s+(\w+)\s*=\s*vm\[([^\]]+)\]\.as<\s*std::vector<std::string>\s*>\(\);",
+        r"struct strvec \1 = vm_as_vector_string(vm, \2);", None),
+    Sub(r"\bstd::string\s+(\w+);", r"str_t \1 = str_new();", None),
+]
+APPEND = Sub(r"\b(\w+)\s*\+=\s*([^;]+);", r"\1 = str_append(\1, \2);", None)
+UNITS += [
+    Unit("affinity_bind", "bind.c", enforce="handle_affinity_bind",
+         lifts={"body": Lift(CLH, r"std::string handle_affinity_bind\(", rules=BIND_RULES + SPELLING + [APPEND],
+                             loops={1: LOOP_BIND, "count": 1})},
+         funcs=[CLH + ": pika::detail::handle_affinity_bind"], min_obligations=20,
+         doc="F/T + loop contract: if --pika:bind is given the result is built from every occurrence exactly once, in order, "
+             "separated by ';' (vector of arbitrary length, one symbolic victim element), and neither the configuration map "
+             "nor the default contributes; otherwise configuration-map value, else default"),
+]
+
 META = {
-    "explanation": "",
-    "trusted_base": [],
-    "assumptions": [],
-    "not_decided": [],
+    "explanation":
+        "C16 is decided for the resolution layer of command_line_handling.cpp only.  std::string values are opaque tokens "
+        "(equality with the keywords the code compares with; 'is a numeral / its value' and 'is a prefix of' are opaque, fixed "
+        "per-token facts).  The three sources of a setting are ghost objects: variables_map (parsed command line), "
+        "manage_config (--pika:ini / init_params entries), runtime_configuration (default ini with ${PIKA_...:default} "
+        "placeholders = environment level).  Units: scheduler, affinity, process_mask, pu_step, pu_offset, numa_sensitive, "
+        "affinity_bind, num_threads, num_cores (F: result == command line, else configuration map, else the default handed in; "
+        "the stated invalid values throw; no exception without an invalid supplied value), default_threads / default_cores "
+        "(what 'all' / 'cores' resolve to: mask-aware), cfgmap.get_value.* / rtcfg.get_entry_as.size_t (the accessors of the two "
+        "lower sources, whose contracts are the stubs the other units use), check.* (range / combination checks on the resolved "
+        "values), handle_arguments (T: each setting resolved once with the environment-level entry or the built-in literal as "
+        "default, stored in its member, written exactly once under its ini key after the user's --pika:ini entries, checks run on "
+        "the resolved values).  "
+        "EXPECTED FAILURES on the pinned tree (genuine findings, see report): numa_sensitive.range (handle_numa_sensitive "
+        "validates only the command-line value: pika.numa_sensitive / PIKA_NUMA_SENSITIVE > 2 is accepted and used) and "
+        "num_threads.zero_rejected (handle_num_threads tests `threads == 0` only inside the --pika:threads branch: pika.os_threads=0 "
+        "or PIKA_THREADS=0 together with pika.force_min_os_threads >= 1 is silently replaced by the minimum).  "
+        "specs/C16/candidate_repair.patch is the minimal repair of both (syntax-checked with vx/cxxcheck.sh); "
+        "`specs/C16/mutfix.sh NONE NONE NONE` shows all units proved on the repaired scratch tree.",
+    "trusted_base": [
+        "specs/C16/c16.h token model of std::string: a string is an int token; equality of tokens = equality of strings for the "
+        "distinguished keywords (\"\", cores, all, pu, core, socket, machine, balanced, none, local-priority, abp-priority, "
+        "local-priority-fifo) and for option/ini keys; user strings are 4 arbitrary tokens distinct from all keywords; every "
+        "string literal of the lifted text is mapped to its token by spelling (rule StrLit), unknown literals to a fresh number",
+        "specs/C16/c16.h g_num_ok / g_num: whether a token is a size_t numeral and its value are arbitrary but fixed per user "
+        "token; keywords and \"\" are not numerals; from_string_size_t (throwing overload: bad_lexical_cast) and "
+        "from_string_dflt_size_t / cfg_get_size_t (overload with default) consult the same table, i.e. std::stoul + "
+        "check_only_whitespace are a function of the string only",
+        "specs/C16/c16.h from_string_dflt_string: from_string<std::string>(v, dflt) is operator>> on a stringstream with "
+        "failbit exceptions: fails exactly on the empty (or all-blank) string; a value token stands for the first blank-delimited "
+        "word of the stored text",
+        "specs/C16/c16.h to_string_size_t: std::to_string(n) yields a fresh string that is none of the keywords and whose numeral "
+        "value is n (two fresh tokens per call under verification; exhausting them is reported as a model-limit obligation)",
+        "specs/C16/c16.h vm_count / vm_as_string / vm_as_size_t: program_options::variables_map as 'option present?' + value; "
+        "as<T>() on an absent option is an obligation (boost::bad_any_cast); the value was converted by program_options at parse time",
+        "specs/C16/c16.h rtcfg_get_entry: util::section::get_entry(key, dflt) = the (already expanded) entry if it exists, else dflt",
+        "specs/C16/c16.h cfg_set: `cfgmap.config_[key] = v` (std::map::operator[] assignment)",
+        "specs/C16/c16.h vx_throw + rules THROW / FROM_STRING / MayThrow / member_call in spec.py: `throw E(\"...\")` is lowered to "
+        "'record the exception in ghost state and leave the function'; a call of a callee that may throw is followed by "
+        "`if (vx_exc) return`; the functions under contract contain no try/catch and no RAII objects with observable destructors",
+        "specs/C16/threads.c get_topology / topo_* / mask_count / mask_bit_and / hardware_concurrency: the topology is opaque; "
+        "count(process mask), hardware_concurrency(), get_number_of_cores() are arbitrary numbers; bit_and(core mask, process mask) "
+        "is an arbitrary bit per core (counted in ghost state, asked once per core in index order)",
+        "specs/C16/getvalue.c map_find / map_end: std::map::find / end over the ghost map",
+        "specs/C16/checks.c str_find: std::string(LIT).find(s) == 0 <=> s is a prefix of LIT: true for \"\" and for s == LIT, an "
+        "arbitrary fixed bit for user tokens, false for the model's other keywords",
+        "specs/C16/arguments.c T stubs handle_* / check_* / from_string_mask_type / topo_set_cpubind_mask_main_thread / "
+        "update_logging_settings / vec_append_all / cfg_add / cfg_get_int / get_entry_as_int / get_entry_as_size_t / ini_put_*: "
+        "callees count their calls, record their arguments and return arbitrary values (each resolution function and check may "
+        "throw); manage_config::add only creates entries for keys that are not present yet; `ini_config.emplace_back(\"key[!]=\" "
+        "+ value)` is recorded per key (rule IniEmplace captures key and value expression)",
+        "specs/C16/bind.c strvec_* / str_new / str_append: std::vector<std::string> of arbitrary length with one symbolic victim "
+        "element; operator+= on the string under construction records the piece appended",
+        "std::max / std::min on size_t (std_max_size_t / std_min_size_t)",
+    ],
+    "assumptions": [
+        "a configuration-map value that does not convert to the requested type is treated by manage_config::get_value<T> as if the "
+        "key were absent (from_string with default; proved: cfgmap.get_value.*), likewise get_entry_as for the runtime "
+        "configuration: precedence is therefore stated over USABLE configuration-map values (present and convertible); that "
+        "`--pika:ini=pika.pu_step=abc` or PIKA_PU_STEP=abc is silently ignored is by the letter of the property an invalid value "
+        "that is ignored -- recorded here, not turned into an obligation, because the keyword handling of pika.os_threads / "
+        "pika.cores relies on exactly this behaviour",
+        "handle_num_cores has no environment level: its default is the resolved thread count (the ${PIKA_CORES:all} entry of the "
+        "default ini is overwritten by the pika.cores=<n> entry handle_arguments writes and is never read by the resolution)",
+        "the mask-aware defaults (count of the process mask, hardware concurrency, number of cores) are opaque inputs; "
+        "num_threads / num_cores make no assumption about them (a default of 0 is rejected like a supplied 0)",
+        "check.affinity_domain: leading abbreviations of pu/core/socket/machine, including the empty string, are accepted by "
+        "design of the `0 == std::string(lit).find(value)` idiom; the contract follows the code's notion of 'one of'",
+    ],
+    "not_decided": [
+        "program_options parsing (parse_command_line.cpp): option syntax, value conversion, --pika:N:option node prefixes, response "
+        "files, aliases, --pika:config files; rejection of unknown --pika: options; pass-through of non-pika arguments to the "
+        "application (unregistered options, store_unregistered_options / reconstruct_command_line)",
+        "PIKA_COMMANDLINE_OPTIONS / pika.commandline.prepend_options: prepend_options (boost::tokenizer) and the resulting "
+        "'later occurrence wins' order inside program_options",
+        "environment placeholders ${PIKA_...:default} of the default ini and their expansion (runtime_configuration.cpp, ini.cpp "
+        "section::expand); the ini parser; section::get_entry itself",
+        "command_line_handling::call: preprocess_config_settings (std::stable_partition of --pika: entries out of ini_config_), the "
+        "two-pass scheme (preliminary variables_map, rtcfg_.reconfigure, second parse), manage_config construction / add "
+        "(first occurrence of a key wins: std::map::insert), store_command_line, handle_help_options, handle_attach_debugger, "
+        "update_logging_settings",
+        "that the RUNNING runtime uses the resolved values: rtcfg_.reconfigure(ini_config_) (later ini entry overrides earlier, "
+        "'key!=' forced entries), init_runtime.cpp reading pika.os_threads etc. back, resource partitioner, thread_manager, "
+        "stack sizes and every other ini entry not resolved by a handle_* function -- decided only up to the ini_config vector "
+        "and the members of command_line_handling",
+        "character contents of strings: numeral syntax (std::stoul accepts a leading '-', leading blanks), hexadecimal process "
+        "masks (from_string<mask_type>), the text of bind descriptions (parse_affinity_options: C15), error message texts",
+        "macOS (__APPLE__) branches and PIKA_HAVE_MAX_CPU_COUNT / PIKA_HAVE_MPI branches: inactive in the shipped configuration",
+    ],
 }
